@@ -4,10 +4,10 @@
   The model (`Model/Placement.lean`) is a function of the job graph and of the host list only.
   Helper lemmas are in `Lemmas/Placement.lean`; this file has the statements a reader audits.
 
-  Result in one paragraph: placement, global ids, all-to-all links, port assignment and the
-  independence from host id / map order hold. `forward_exactly_one_consumer` does NOT hold for the
-  unchanged code (finding F4): see `forward_exactly_one_consumer_counterexample` and the
-  `_partial` form that says exactly when it does hold.
+  Result in one paragraph: placement, global ids, all-to-all links, exactly one consumer per
+  producer replica on forward links, port assignment and the independence from host id / map order
+  hold. (`forward_exactly_one_consumer` was false before commit 3deb123 — finding F4, see
+  Model/Placement.lean — and is proved at full strength for the current code.)
 -/
 import NoirVerif.Lemmas.Placement
 namespace Noir.Placement
@@ -129,28 +129,42 @@ theorem links_all_to_all_non_forward (from_ to : BlockInfo) (h : from_.onlyOne =
   unfold edgeLinks
   simp [consumers_non_forward from_ to _ h]
 
-/-
-  FULL statement of the property (does NOT hold for the unchanged code, see the counterexample):
+/-- **C19 (forward links), full strength.** On a non-fragile forward edge (producer strategy
+    `OnlyOne`) into a non-empty block, every producer replica has exactly one consumer, and it is
+    its same-(host, replica) replica whenever that replica exists (otherwise the single replica,
+    or — since commit 3deb123 — `sorted_consumers[global_id % k]`). `End`'s
+    `assert_eq!(indexes.len(), 1)` therefore holds for every producer replica, and `Start` counts
+    the producers of a consumer replica from these very links. -/
+theorem forward_exactly_one_consumer (from_ to : BlockInfo) (hoo : from_.onlyOne = true)
+    (hne : to.replicas ≠ []) (f : Coord) :
+    ∃ t ∈ to.replicas, consumers from_ to false f = [t] ∧
+      (partner to f ∈ to.replicas → t = partner to f) := by
+  have hfw : (from_.onlyOne || false) = true := by simp [hoo]
+  by_cases hp : partner to f ∈ to.replicas
+  · exact ⟨partner to f, hp, consumers_partner from_ to false f hfw hp, fun _ => rfl⟩
+  · by_cases h1 : to.replicas.length = 1
+    · match hr : to.replicas, h1 with
+      | [t], _ =>
+        refine ⟨t, by simp, ?_, fun h => absurd (hr ▸ h) hp⟩
+        rw [consumers_single from_ to false f (by simp [hr]), hr]
+    · obtain ⟨hlt, hc⟩ := consumers_orphan from_ to f hoo hp h1 hne
+      exact ⟨_, List.getElem_mem hlt, hc, fun h => absurd h hp⟩
 
-    theorem forward_exactly_one_consumer (from_ to : BlockInfo) (fragile : Bool)
-        (hfw : (from_.onlyOne || fragile) = true) (hne : to.replicas ≠ []) :
-        ∀ f ∈ from_.replicas, ∃ t ∈ to.replicas, consumers from_ to fragile f = [t] ∧
-          (partner to f ∈ to.replicas → t = partner to f)
--/
-
-/-- **C19 (forward links), the part that holds.** On a forward edge (producer strategy `OnlyOne`,
-    or fragile) a producer replica has exactly one consumer
-    * if the consumer block has a single replica (that replica), or
-    * if its same-(host, replica) partner exists in the consumer block (that partner — in
-      particular whenever producer and consumer have the same layout);
-    and otherwise it has NO consumer at all (what is missing for the full statement). -/
-theorem forward_exactly_one_consumer_partial (from_ to : BlockInfo) (fragile : Bool)
+/-- which consumer: the partner, the single replica, or the deterministic fallback (a function of
+    the producer's global id and of the sorted consumer list only — the same on every host) -/
+theorem forward_consumer_choice (from_ to : BlockInfo) (fragile : Bool)
     (hfw : (from_.onlyOne || fragile) = true) (f : Coord) :
     (to.replicas.length = 1 → consumers from_ to fragile f = to.replicas) ∧
     (partner to f ∈ to.replicas → consumers from_ to fragile f = [partner to f]) ∧
-    (partner to f ∉ to.replicas → to.replicas.length ≠ 1 → consumers from_ to fragile f = []) :=
-  ⟨consumers_single from_ to fragile f, consumers_partner from_ to fragile f hfw,
-   consumers_orphan from_ to fragile f hfw⟩
+    (from_.onlyOne = true → fragile = false → partner to f ∉ to.replicas →
+      to.replicas.length ≠ 1 → to.replicas ≠ [] →
+      consumers from_ to fragile f = [to.replicas[from_.globalId f % to.replicas.length]?.getD f] ∧
+      to.replicas.Pairwise (fun a c => lexLe a.key c.key = true)) := by
+  refine ⟨consumers_single from_ to fragile f, consumers_partner from_ to fragile f hfw, ?_⟩
+  intro hoo hfr hp h1 hne
+  subst hfr
+  obtain ⟨hlt, hc⟩ := consumers_orphan from_ to f hoo hp h1 hne
+  exact ⟨by rw [hc, List.getElem?_eq_getElem hlt]; rfl, replicas_sorted to⟩
 
 /-- equal layouts (same per-host counts): every producer replica has exactly its partner -/
 theorem forward_same_layout (from_ to : BlockInfo) (fragile : Bool)
@@ -161,61 +175,35 @@ theorem forward_same_layout (from_ to : BlockInfo) (fragile : Bool)
   rw [mem_replicas] at hf ⊢
   simpa [partner, hl] using hf.2
 
-/-- **F4.** `stream_par_iter(..).replication(Limited(3))` on 4 local cores: the forward link from the
-    4-replica block to the 3-replica block leaves producer replica `(0,0,3)` without any consumer
-    (its output is silently dropped by `End`), so "exactly one consumer per producer" is false. -/
-theorem forward_exactly_one_consumer_counterexample :
+/-- **Fragile links** (the output link of `iterate`) are NOT completed by the fallback: the
+    producer reaches the single replica, or its same-(host, replica) partner, or nobody. That is
+    what the code needs: `Iterate` does not use `End` for this link but builds its own sender to
+    `(output block, own host, own replica)` (iterate.rs:219-227); a link to any other replica
+    would make that replica wait for a producer that never sends. Through the API both ends of a
+    fragile link are `Unlimited` blocks, so the partner always exists (`forward_same_layout`). -/
+theorem fragile_link_consumers (from_ to : BlockInfo) (f : Coord) :
+    (to.replicas.length = 1 → consumers from_ to true f = to.replicas) ∧
+    (partner to f ∈ to.replicas → consumers from_ to true f = [partner to f]) ∧
+    (partner to f ∉ to.replicas → to.replicas.length ≠ 1 → consumers from_ to true f = []) :=
+  ⟨consumers_single from_ to true f, consumers_partner from_ to true f (by simp),
+   consumers_fragile_no_partner from_ to f⟩
+
+/-- the former F4 witness (`Unlimited → Limited(3)` on 4 local cores): producer replica `(0,0,3)`
+    (global id 3) now reaches consumer `3 % 3 = 0`; the other three keep their partners -/
+example :
     let from_ := blockInfo (.loc 4) ⟨0, .unlimited, true⟩
     let to := blockInfo (.loc 4) ⟨1, .limited 3, false⟩
-    (⟨0, 0, 3⟩ : Coord) ∈ from_.replicas ∧ to.replicas.length = 3 ∧
-      consumers from_ to false ⟨0, 0, 3⟩ = [] ∧
-      ¬ (∀ f ∈ from_.replicas, ∃ t ∈ to.replicas, consumers from_ to false f = [t]) := by
+    from_.replicas.map (consumers from_ to false) = [[⟨1, 0, 0⟩], [⟨1, 0, 1⟩], [⟨1, 0, 2⟩], [⟨1, 0, 0⟩]] := by
   decide
 
-/-- the same defect across hosts: `Host` after `Unlimited` on two 2-core hosts -/
-theorem forward_exactly_one_consumer_host_counterexample :
+/-- the former multi-host witness (`Host` after `Unlimited` on two 2-core hosts): the replicas
+    `(h,1)` (global ids 1 and 3) fall back to consumer `id % 2 = 1`, i.e. `(1,1,0)` -/
+example :
     let cfg := Config.remote [⟨0, 9500, 2⟩, ⟨1, 9500, 2⟩]
     let from_ := blockInfo cfg ⟨0, .unlimited, true⟩
     let to := blockInfo cfg ⟨1, .host, false⟩
-    consumers from_ to false ⟨0, 1, 1⟩ = [] ∧ (⟨0, 1, 1⟩ : Coord) ∈ from_.replicas := by
+    from_.replicas.map (consumers from_ to false) = [[⟨1, 0, 0⟩], [⟨1, 1, 0⟩], [⟨1, 1, 0⟩], [⟨1, 1, 0⟩]] := by
   decide
-
-/-! ### The candidate repair of F4 (NOT the code under verification; see the report) -/
-
-/-- Candidate fix in `build_execution_graph`: a producer replica of a non-fragile `OnlyOne` edge
-    that ends up without consumer is connected to `consumers_sorted[global_id % k]`
-    (`to.replicas` is already in coordinate order in the model). -/
-def consumersFixed (from_ to : BlockInfo) (fragile : Bool) (f : Coord) : List Coord :=
-  let cs := consumers from_ to fragile f
-  if from_.onlyOne && !fragile && cs.isEmpty then
-    match to.replicas[from_.globalId f % to.replicas.length]? with
-    | some t => [t]
-    | none => []
-  else cs
-
-/-- With the candidate fix the full statement holds on every non-fragile forward edge into a
-    non-empty block: exactly one consumer, the same-(host, replica) one when it exists. (So `End`'s
-    `assert_eq!(indexes.len(), 1)` keeps holding; `Start` counts the producers of a consumer
-    replica from the links themselves, so its marker accounting follows.) -/
-theorem forward_exactly_one_consumer_fixed (from_ to : BlockInfo) (hoo : from_.onlyOne = true)
-    (hne : to.replicas ≠ []) (f : Coord) :
-    ∃ t ∈ to.replicas, consumersFixed from_ to false f = [t] ∧
-      (partner to f ∈ to.replicas → t = partner to f) := by
-  have hfw : (from_.onlyOne || false) = true := by simp [hoo]
-  by_cases hp : partner to f ∈ to.replicas
-  · refine ⟨partner to f, hp, ?_, fun _ => rfl⟩
-    simp [consumersFixed, consumers_partner from_ to false f hfw hp]
-  · by_cases h1 : to.replicas.length = 1
-    · match hr : to.replicas, h1 with
-      | [t], _ =>
-        refine ⟨t, by simp, ?_, fun h => absurd (hr ▸ h) hp⟩
-        simp [consumersFixed, consumers_single from_ to false f (by simp [hr]), hr]
-    · have hc := consumers_orphan from_ to false f hfw hp h1
-      have hpos : 0 < to.replicas.length := List.length_pos_iff.mpr hne
-      have hlt := Nat.mod_lt (from_.globalId f) hpos
-      refine ⟨to.replicas[from_.globalId f % to.replicas.length], List.getElem_mem hlt, ?_,
-        fun h => absurd h hp⟩
-      simp [consumersFixed, hc, hoo, List.getElem?_eq_getElem hlt]
 
 /-! ## Ports -/
 
